@@ -92,6 +92,10 @@ pub(crate) fn verif_c14_new() -> routing_table::verif_c14::TableBox {
     routing_table::verif_c14::TableBox::new()
 }
 
+#[cfg(litep2p_verif)]
+#[path = "../../../verif/c16.rs"]
+pub(crate) mod verif_c16;
+
 mod schema {
     pub(super) mod kademlia {
         include!(concat!(env!("OUT_DIR"), "/kademlia.rs"));
@@ -266,6 +270,8 @@ impl Kademlia {
                 for action in actions {
                     match self.service.open_substream(peer) {
                         Ok(substream_id) => {
+                            // Track the substream, otherwise its open failure would be ignored.
+                            self.pending_substreams.insert(substream_id, peer);
                             context.add_pending_action(substream_id, action);
                         }
                         Err(error) => {
@@ -277,10 +283,11 @@ impl Kademlia {
                                 "connection established to peer but failed to open substream",
                             );
 
-                            if let PeerAction::SendFindNode(query_id) = action {
-                                self.engine.register_send_failure(query_id, peer);
-                                self.engine.register_response_failure(query_id, peer);
-                            }
+                            // Every kind of pending action belongs to a query that is waiting
+                            // for this peer.
+                            let query_id = action.query_id();
+                            self.engine.register_send_failure(query_id, peer);
+                            self.engine.register_response_failure(query_id, peer);
                         }
                     }
                 }
@@ -618,6 +625,11 @@ impl Kademlia {
                     "handle `ADD_PROVIDER` message",
                 );
 
+                // `ADD_PROVIDER` is never a valid response to a request of ours.
+                if let Some(query_id) = query_id {
+                    self.engine.register_response_failure(query_id, peer);
+                }
+
                 match (providers.len(), providers.pop()) {
                     (1, Some(provider)) => {
                         let addresses = provider.addresses();
@@ -844,6 +856,8 @@ impl Kademlia {
 
     /// Handle next query action.
     async fn on_query_action(&mut self, action: QueryAction) -> Result<(), (QueryId, PeerId)> {
+        #[cfg(litep2p_verif)]
+        verif_c16::trace_action(&action);
         match action {
             QueryAction::SendMessage { query, peer, .. } => {
                 // This action is used for `FIND_NODE`, `GET_VALUE` and `GET_PROVIDERS` queries.
@@ -899,6 +913,8 @@ impl Kademlia {
                 let key = record.key.clone();
                 let message: Bytes = KademliaMessage::put_value(record);
 
+                let mut failed_peers = Vec::new();
+
                 for peer in &peers {
                     if let Err(error) = self.open_substream_or_dial(
                         peer.peer,
@@ -913,6 +929,7 @@ impl Kademlia {
                             ?error,
                             "failed to put record to peer",
                         );
+                        failed_peers.push(peer.peer);
                     }
                 }
 
@@ -922,6 +939,12 @@ impl Kademlia {
                     peers.into_iter().map(|peer| peer.peer).collect(),
                     quorum,
                 );
+
+                // The peers that could not be reached at all will never produce a send result,
+                // report them as failed now that the tracking has started.
+                for peer in failed_peers {
+                    self.engine.register_send_failure(query, peer);
+                }
 
                 Ok(())
             }
@@ -953,6 +976,8 @@ impl Kademlia {
 
                 let message = KademliaMessage::add_provider(provided_key.clone(), provider);
 
+                let mut failed_peers = Vec::new();
+
                 for peer in &peers {
                     if let Err(error) = self.open_substream_or_dial(
                         peer.peer,
@@ -965,7 +990,8 @@ impl Kademlia {
                             ?provided_key,
                             ?error,
                             "failed to add provider record to peer",
-                        )
+                        );
+                        failed_peers.push(peer.peer);
                     }
                 }
 
@@ -975,6 +1001,12 @@ impl Kademlia {
                     peers.into_iter().map(|peer| peer.peer).collect(),
                     quorum,
                 );
+
+                // The peers that could not be reached at all will never produce a send result,
+                // report them as failed now that the tracking has started.
+                for peer in failed_peers {
+                    self.engine.register_send_failure(query, peer);
+                }
 
                 Ok(())
             }
@@ -1040,6 +1072,8 @@ impl Kademlia {
                     self.disconnect_peer(peer, Some(query)).await;
                 }
             }
+            #[cfg(litep2p_verif)]
+            verif_c16::snapshot(&self);
 
             tokio::select! {
                 event = self.service.next() => match event {
@@ -1083,6 +1117,8 @@ impl Kademlia {
                 },
                 context = self.executor.next() => {
                     let QueryContext { peer, query_id, result } = context.unwrap();
+                    #[cfg(litep2p_verif)]
+                    verif_c16::trace_result(&peer, &query_id, &result);
 
                     match result {
                         QueryResult::SendSuccess { substream } => {
@@ -1151,6 +1187,12 @@ impl Kademlia {
                                     ?error,
                                     "failed to process message",
                                 );
+
+                                // An undecodable response is a failed response, the query must
+                                // not keep waiting for this peer.
+                                if let Some(query_id) = query_id {
+                                    self.engine.register_response_failure(query_id, peer);
+                                }
                             }
                         }
                         QueryResult::ReadFailure { reason } => {
